@@ -175,11 +175,11 @@ func Start(t TestingT, opt ...Option) *Directory {
 			break
 		}
 		select {
-		case err := <-runErr:
+		case <-runErr:
 			// the server never became ready (it couldn't listen on the port
-			// for example), so don't wait for it forever
-			require.NoError(err, "directory server failed to start")
-			require.Fail("directory server stopped before it was ready")
+			// for example and that error has been logged), so don't wait for
+			// it forever
+			return d
 		default:
 		}
 	}
